@@ -763,6 +763,11 @@ class DCM(np.ndarray):
         axis = np.zeros(3)
         if norm_S > 0:
             axis = S/norm_S
+        if self.A.trace() < 0:
+            # Near a half-turn S vanishes. Take the axis from (R+R^T)/2 - cos(angle)*I = (1-cos(angle))*axis*axis^T
+            M = 0.5*(self.A + self.A.T) - np.cos(angle)*np.identity(3)
+            n = M[:, np.argmax(np.diag(M))]
+            axis = -n/np.linalg.norm(n) if n@S < 0 else n/np.linalg.norm(n)
         return axis, angle
 
     def to_axang(self) -> Tuple[np.ndarray, float]:
